@@ -426,6 +426,7 @@ def main():
                  "cmd": "coqc props/C20.v", "log": "%s\n%s" % (build_err.what, build_err.log), "ok": False}
     else:
         props = I.apply_poison(C.compile_props(CID))
+    t_build = time.time() - t0        # regenerate + make + coqc props, including the wait for the build lock
     have_oracle = os.path.exists(os.path.join(C.BIN, "oracle_" + I.AREA))
     tot = new_out()
     floors = []
@@ -546,10 +547,10 @@ def main():
                       "model <-> source: harness/gen_iso.py (fail-closed ast translator, accepted subset in its docstring / notes/iso.md) regenerates coq/gen/IsoGen.v from isoparser.py on every run and IsoGenThm.v proves gen_f = model_f; the decorator _takes_ascii is translated too (input kinds str / bytes / stream -> gen_takes_ascii); trusted: the translator, the primitives of coq/iso/IsoGenLib.v (read_in, encode_ascii, py_int, ...), the AST-hash pins of isoparser.__init__, the module tail, the import block and the (unevaluated) arguments of raise ValueError(...); the differential run ties the running bytecode"],
                      len(verdict.violations))
     print("C20 %s: obligations %d/%d, %d evaluations (%d distinct non-trivial, %d accepted), misread %d, "
-          "non-ValueError %d, model-diff %d, spec-diff %d, %.1fs" % (
+          "non-ValueError %d, model-diff %d, spec-diff %d, %.1fs (build+proofs incl. lock wait %.0fs)" % (
               tier, props["discharged"], props["obligations"], cov["evaluations"], len(tot["nontrivial"]),
               tot["accepted"], tot["misread"], tot["bad_exc"], tot["model_diff"], tot["spec_diff"],
-              time.time() - t0))
+              time.time() - t0, t_build))
     return rc
 
 
